@@ -240,6 +240,41 @@ def thdm_gauge(draw, lam=2.0, tb=(0.3, 50.0), types=(1, 2, 3, 4, 5, 6), vary_sm=
     return p
 
 
+def lambdas_from_mass(p, v):
+    """lambda_1..5 of the mass-basis point p (documented relations between the bases; used for *generation*
+    of gauge-basis points that are free of tachyons, not as an oracle)"""
+    sba, tb = p["sba"], p["tb"]
+    ctb = 1 / tb
+    rtb = math.sqrt(1 + tb * tb)
+    sb, cb = tb / rtb, 1 / rtb
+    alpha = -math.asin(sba) + math.atan(tb)
+    sa, ca = math.sin(alpha), math.cos(alpha)
+    mh, mH, mA, mHp = p["mh"], p["mH"], p["mA"], p["mHp"]
+    l6, l7, m12 = p["lambda6"], p["lambda7"], p["m122"]
+    v2 = v * v
+    l1 = ((mH * ca) ** 2 + (mh * sa) ** 2 - m12 * tb) / (v2 * cb * cb) + 0.5 * tb * (l7 * tb * tb - 3 * l6)
+    l2 = ((mH * sa) ** 2 + (mh * ca) ** 2 - m12 * ctb) / (v2 * sb * sb) + 0.5 * ctb * (l6 * ctb * ctb - 3 * l7)
+    l3 = ((mH ** 2 - mh ** 2) * ca * sa + 2 * mHp ** 2 * sb * cb - m12) / (v2 * sb * cb) - 0.5 * l6 * ctb - 0.5 * l7 * tb
+    l4 = ((mA ** 2 - 2 * mHp ** 2) * cb * sb + m12) / (v2 * sb * cb) - 0.5 * l6 * ctb - 0.5 * l7 * tb
+    l5 = (m12 / (sb * cb) - mA ** 2) / v2 - 0.5 * l6 * ctb - 0.5 * l7 * tb
+    return [l1, l2, l3, l4, l5, l6, l7]
+
+
+def sm_v(sm):
+    cw = sm["mw"] / sm["mz"]
+    g2 = math.sqrt(4 * math.pi * sm["alpha_em_mz"]) / math.sqrt(1 - cw * cw)
+    return 2 * sm["mw"] / g2
+
+
+@st.composite
+def thdm_gauge_valid(draw, **kw):
+    """gauge-basis point derived from a random mass-basis point (hence mostly tachyon-free)"""
+    m = draw(thdm_mass(**kw))
+    p = {"basis": "gauge", "lambda": lambdas_from_mass(m, sm_v(m["sm"])), "tb": m["tb"], "m122": m["m122"],
+         "yuk": m["yuk"], "sm": m["sm"], "running": m["running"], "force": m["force"], "from_mass": m}
+    return p
+
+
 def thdm_tokens(p, flags=()):
     t = ["basis", p["basis"], "type", p["yuk"]["type"]]
     if p["basis"] == "mass":
